@@ -163,10 +163,24 @@ class AddCyclicMemoryLayout(RewritePattern):
                 # increase current stride
                 current_stride = current_stride * layout_bound
 
-            # fill up empty strides
-            for stride in strides:
+            # a (tiled) schedule may touch only part of an operand dimension: add an outermost tile
+            # for the remainder, such that the layout still covers the entire operand shape
+            for dim, stride in enumerate(strides):
                 if not len(stride):
-                    stride.append(Stride(current_stride, 1))
+                    continue
+                existing_bound = prod(s.bound for s in stride if s.bound)
+                dim_size = memref_type.get_shape()[dim]
+                if existing_bound < dim_size:
+                    remaining_bound = ceil(dim_size / existing_bound)
+                    stride.insert(0, Stride(current_stride, remaining_bound))
+                    current_stride = current_stride * remaining_bound
+
+            # fill up empty strides
+            for dim, stride in enumerate(strides):
+                if not len(stride):
+                    dim_size = memref_type.get_shape()[dim]
+                    stride.append(Stride(current_stride, dim_size))
+                    current_stride = current_stride * dim_size
 
             layout = TiledStridedLayout([TiledStride(s) for s in strides]).canonicalize()
             tsl = TiledStridedLayoutAttr(layout)
